@@ -140,10 +140,11 @@ def build_discipline(t, ctx):
     if t.flag(0.2, "wrapper_class"):
         return build_wrapper(t, ctx)
     kind = t.pick(DISC_KINDS, "disc_kind")
-    grammar = t.pick(["JSONGrammar", "SimpleGrammar"], "grammar")
+    grammar = t.pick(["JSONGrammar", "SimpleGrammar", "PydanticGrammar"], "grammar")
     cache = CACHES[t.weighted([3, 3, 1, 1, 3], "cache")]  # (both MemoryFullCache variants end at a known finding)
     prev = Discipline.default_grammar_type
-    Discipline.default_grammar_type = Discipline.GrammarType.JSON if grammar == "JSONGrammar" else Discipline.GrammarType.SIMPLE
+    Discipline.default_grammar_type = {"JSONGrammar": Discipline.GrammarType.JSON, "SimpleGrammar": Discipline.GrammarType.SIMPLE,
+                                       "PydanticGrammar": Discipline.GrammarType.PYDANTIC}[grammar]
     try:
         if kind == "Analytic":
             d = create_discipline("AnalyticDiscipline", expressions={"y": "2*x+z-3*u+v**2+5*s*x", "w": "x**2-z"})
@@ -534,6 +535,10 @@ def do_op(d, op, inputs):
             g.defaults[n] = np.array(g.defaults[n], dtype=float, copy=True) + 0.25
         return ("edit", {})
     inp = {n: np.array(v, copy=True) for n, v in inputs[k].items()}
+    if kind == "exec_bad":
+        # data of the wrong type: the restored object validates (and rejects) what the original validates (wave 11, C20k)
+        inp[sorted(inp)[0]] = "not-an-array"
+        return ("data", snap(d.execute(inp)))
     if kind == "exec":
         return ("data", snap(d.execute(inp)))
     jac = d.linearize(inp, compute_all_jacobians=True)
@@ -582,6 +587,9 @@ def run_discipline_like(ctx, d, inputs, label, iterative, cache):
         suffix = [("lin", k) for _, k in suffix]
     if exec_only:
         suffix = [("exec", k) for _, k in suffix]
+    if inputs[0] and label.startswith("discipline:") and t.flag(0.25, "suffix_ends_with_invalid_input"):
+        suffix.append(("exec_bad", 0))
+        ctx.probe("invalid_input_given_to_original_and_restored")
     sig = label
     tname = ["pickle", "to_pickle-file", "fork", "other-interpreter"][transport]
     ctx.event("cfg", label, canon(prefix), tname, canon(suffix))
